@@ -6,6 +6,7 @@ import (
 	"encoding/json"
 	"fmt"
 	"io"
+	"math"
 	"sort"
 	"strconv"
 
@@ -2096,6 +2097,14 @@ func (r *Resolvable) walkInteger(i *Integer, value *astjson.Value) bool {
 		r.marshalBuf = value.MarshalTo(r.marshalBuf[:0])
 		r.addError(fmt.Sprintf("Int cannot represent non-integer value: \"%s\"", string(r.marshalBuf)), i.Path)
 		return r.err()
+	}
+	// a number with a fraction or an exponent is an Int only if its value is integral (1.0, 1e3)
+	r.marshalBuf = value.MarshalTo(r.marshalBuf[:0])
+	if bytes.ContainsAny(r.marshalBuf, ".eE") {
+		if f, err := strconv.ParseFloat(string(r.marshalBuf), 64); err != nil || f != math.Trunc(f) {
+			r.addError(fmt.Sprintf("Int cannot represent non-integer value: \"%s\"", string(r.marshalBuf)), i.Path)
+			return r.err()
+		}
 	}
 	if r.render() {
 		r.renderScalarFieldValue(value, i.Nullable)
